@@ -175,7 +175,7 @@ pub enum Op {
     SkipUnlessLast(i64, usize),
     /// panic (uncaught) if the previous observation of this task != v
     AssertLast(i64),
-    /// shuttle::current::reset_step_count(): 0
+    /// shuttle::current::reset_step_count(): observes the number of steps recorded so far
     ResetSteps,
 }
 
